@@ -17,7 +17,7 @@ LEVEL_TEXT = ("Lean theorems C06_invariant / C06_no_duplicates (every reachable 
               "mapreduce sessions on the real ServerHandler whose files are FIFOs (the script decides when each reader registers, writes a "
               "line, ends), the per-file counts of all AGGREGATE messages must be what the model's run of the same script under the eager "
               "schedule gives (C06_scripted_schedule_is_interleaving), and by scripted client-side merges through the real "
-              "client.Aggregate with the global group's semaphore held by the script")
+              "client.Aggregate with the global group's semaphore held by the script; the client's reporting path: c15.race (final report against the periodic reporter on one outfile) and c06.report (periodic reporter, merging connection handlers, final report while the reporter is alive: the outfile accounts for every partial result)")
 TRUSTED = ["Lean 4 kernel", "axioms: propext, Quot.sound, Classical.choice (at most)", "overlay harness + dtmodel driver + this diff",
            "modelled not verified: Go channel / select semantics and goroutine scheduling (the labels of the transition system are the "
            "scheduler's choices; each script exercises one interleaving), the kernel's FIFO semantics, the 100 ms idle sleep of the "
